@@ -1988,6 +1988,11 @@ class QueryRetrieveServiceClass(ServiceClass):
                     store_results[2] += 1
                 elif store_status[0] == STATUS_SUCCESS:
                     store_results[3] += 1
+                else:
+                    # Any other category (such as Cancel) means the instance
+                    #   wasn't stored
+                    store_results[1] += 1
+                    _add_failed_instance(dataset)
 
                 store_results[0] -= 1
 
@@ -2396,6 +2401,11 @@ class QueryRetrieveServiceClass(ServiceClass):
                     store_results[2] += 1
                 elif store_status[0] == STATUS_SUCCESS:
                     store_results[3] += 1
+                else:
+                    # Any other category (such as Cancel) means the instance
+                    #   wasn't stored
+                    store_results[1] += 1
+                    _add_failed_instance(dataset)
 
                 store_results[0] -= 1
 
